@@ -153,9 +153,12 @@ func ReadFromWebVTT(i io.Reader) (o *Subtitles, err error) {
 			return
 		}
 
+		// Inside a cue every line up to the next empty line is cue text, even when it begins like another block
+		var inCue = blockName == webvttBlockNameText
+
 		switch {
 		// Comment
-		case strings.HasPrefix(line, "NOTE "):
+		case !inCue && strings.HasPrefix(line, "NOTE "):
 			blockName = webvttBlockNameComment
 			comments = append(comments, strings.TrimPrefix(line, "NOTE "))
 		// Empty line
@@ -173,7 +176,7 @@ func ReadFromWebVTT(i io.Reader) (o *Subtitles, err error) {
 			sa.WebVTTTags = []WebVTTTag{}
 
 		// Region
-		case strings.HasPrefix(line, "Region: "):
+		case !inCue && strings.HasPrefix(line, "Region: "):
 			// Add region styles
 			var r = &Region{InlineStyle: &StyleAttributes{}}
 			for _, part := range strings.Split(strings.TrimPrefix(line, "Region: "), " ") {
@@ -208,7 +211,7 @@ func ReadFromWebVTT(i io.Reader) (o *Subtitles, err error) {
 			// Add region
 			o.Regions[r.ID] = r
 		// Style
-		case strings.HasPrefix(line, "STYLE"):
+		case !inCue && strings.HasPrefix(line, "STYLE"):
 			blockName = webvttBlockNameStyle
 
 			if _, ok := o.Styles[webvttDefaultStyleID]; !ok {
